@@ -35,7 +35,10 @@ Proof.
   - unfold b2o. cbn [fst]. apply set_bs_coh; auto.
   - unfold b2o. cbn [fst]. now apply set_names_coh.
   - unfold b2o. cbn [fst]. now apply refine_coh.
+  - now apply flatten_in_coh.
   - rewrite unflatten_noop; auto.
+  - now apply select_in_coh.
+  - now apply exclude_in_coh.
   - destruct (through_nt key _); [exact Hc|]. now apply create_nested_coh.
   - cbn [fst]. apply coh_node_iff in Hc as (H1 & H2 & H3 & _). apply coh_node_iff. repeat split; auto.
 Qed.
